@@ -448,11 +448,14 @@ def parse_single_name_into_parts(name, strict=True):
 
             # At least one lowercase letter.
             if 0 in cases:
-                # Index from end of list of first and last lowercase word.
+                # Index from end of list of the first lowercase word, and of the last
+                # lowercase word which is not the final word (last cannot be empty).
                 firstl = cases.index(0) - len(cases)
-                lastl = -cases[::-1].index(0) - 1
-                if lastl == -1:
-                    lastl -= 1  # Cannot consume the rest of the string.
+                inner_cases = cases[:-1]
+                if 0 in inner_cases:
+                    lastl = -inner_cases[::-1].index(0) - 2
+                else:
+                    lastl = firstl - 1  # Only the final word is lowercase: von is empty.
 
                 # Pull the parts out.
                 parts.first = p0[:firstl]
